@@ -544,4 +544,264 @@ theorem sel_sublist : ∀ (m : List Bool) (xs : List α), (sel m xs).Sublist xs 
       · exact List.Sublist.cons _ (ih xs)
       · exact List.Sublist.cons_cons _ (ih xs)
 
+/-! ## tdms: the mask in closed form -/
+def selFrom (p : Nat → Bool) (k : Nat) (xs : List α) : List α :=
+  sel ((List.range' k xs.length).map p) xs
+
+theorem selFrom_cons (p : Nat → Bool) (k : Nat) (x : α) (xs : List α) :
+    selFrom p k (x :: xs) = if p k then x :: selFrom p (k + 1) xs else selFrom p (k + 1) xs := by
+  simp only [selFrom, List.length_cons, List.range'_succ, List.map_cons]
+  cases p k <;> simp [sel]
+
+theorem selFrom_all (p : Nat → Bool) : ∀ (xs : List α) (k : Nat),
+    (∀ i, k ≤ i → p i = true) → selFrom p k xs = xs := by
+  intro xs
+  induction xs with
+  | nil => intro k _; simp [selFrom, sel]
+  | cons x xs ih =>
+    intro k h
+    rw [selFrom_cons, h k (Nat.le_refl _), if_pos rfl, ih (k + 1) (fun i hi => h i (by omega))]
+
+theorem selFrom_dropLast (p : Nat → Bool) (n : Nat) : ∀ (xs : List α) (k : Nat),
+    n = k + xs.length → (∀ i, k ≤ i → p i = !(i + 1 == n)) → selFrom p k xs = xs.dropLast := by
+  intro xs
+  induction xs with
+  | nil => intro k _ _; simp [selFrom, sel]
+  | cons x xs ih =>
+    intro k hn h
+    rw [selFrom_cons, h k (Nat.le_refl _)]
+    have ih' := ih (k + 1) (by simp only [List.length_cons] at hn; omega) (fun i hi => h i (by omega))
+    cases xs with
+    | nil =>
+      have : (k + 1 == n) = true := by simp only [List.length_cons, List.length_nil] at hn; simp [hn]
+      simp [this, selFrom, sel]
+    | cons y ys =>
+      have : (k + 1 == n) = false := by
+        simp only [List.length_cons] at hn
+        simp only [beq_eq_false_iff_ne, ne_eq]; omega
+      simp only [this, Bool.not_false, if_true, ih', List.dropLast_cons_cons]
+
+theorem tdms2rtdcRows_eq_selFrom (a b : Bool) (rows : List α) :
+    tdms2rtdcRows a b rows
+      = selFrom (fun i => !((a && i == 0) || (b && i + 1 == rows.length))) 0 rows := by
+  simp [tdms2rtdcRows, skipMask, selFrom, List.range_eq_range']
+
+theorem tdms2rtdcRows_closed (a b : Bool) (rows : List α) :
+    tdms2rtdcRows a b rows = tdmsKept a b rows := by
+  rw [tdms2rtdcRows_eq_selFrom]
+  cases a with
+  | false =>
+    cases b with
+    | false => simp [tdmsKept]; exact selFrom_all _ rows 0 (by intro i _; rfl)
+    | true =>
+      simp only [tdmsKept, Bool.false_and, Bool.false_or, Bool.true_and]
+      exact selFrom_dropLast _ rows.length rows 0 (by omega) (by intro i _; rfl)
+  | true =>
+    cases rows with
+    | nil => cases b <;> simp [tdmsKept, selFrom, sel]
+    | cons x xs =>
+      rw [selFrom_cons]
+      simp only [Bool.true_and, beq_self_eq_true, Bool.true_or, Bool.not_true, Bool.false_eq_true,
+        if_false, tdmsKept, if_true, List.drop_succ_cons, List.drop_zero]
+      cases b with
+      | false =>
+        simp only [Bool.false_and, Bool.or_false]
+        exact selFrom_all _ xs 1 (by intro i hi; have : (i == 0) = false := by simp; omega
+                                     simp [this])
+      | true =>
+        simp only [Bool.true_and]
+        exact selFrom_dropLast _ (xs.length + 1) xs 1 (by omega) (by
+          intro i hi
+          have : (i == 0) = false := by simp; omega
+          simp [this])
+
+/-! ## command-log history -/
+theorem renamed_not_cmd (n s : String) (hn : cmdLogNames.contains n = true) :
+    cmdLogNames.contains (n ++ "_" ++ s) = false := by
+  simp only [cmdLogNames, List.contains_iff_mem, List.mem_cons, List.not_mem_nil, or_false] at hn
+  rcases hn with h | h <;> subst h <;>
+  · simp only [cmdLogNames, List.contains_eq_mem, List.mem_cons, List.not_mem_nil, or_false,
+      decide_eq_false_iff_not, not_or]
+    constructor <;>
+    · intro h
+      have h2 := congrArg String.toList h
+      simp [String.toList_append] at h2
+
+theorem rename_suffix_injective (a s t : String) (h : a ++ "_" ++ s = a ++ "_" ++ t) : s = t := by
+  have h2 := congrArg String.toList h
+  simp [String.toList_append] at h2
+  exact String.toList_injective h2
+
+theorem renameOldLogs_append (sfx : String) (a b : List (String × Dset)) :
+    renameOldLogs sfx (a ++ b) = renameOldLogs sfx a ++ renameOldLogs sfx b := by
+  simp [renameOldLogs]
+
+theorem renameOldLogs_noop (sfx : String) (ls : List (String × Dset))
+    (h : ∀ kd, kd ∈ ls → cmdLogNames.contains kd.1 = false) : renameOldLogs sfx ls = ls := by
+  simp only [renameOldLogs]
+  conv => rhs; rw [← List.map_id ls]
+  apply List.map_congr_left
+  intro kd hkd
+  have hh := h kd hkd
+  simp only [hh, Bool.false_eq_true, if_false, id]
+
+theorem copyLogs_append (env : Env) (o : Opts) (a b : List (String × Dset)) :
+    copyLogs env o (a ++ b) = copyLogs env o a ++ copyLogs env o b := by
+  simp [copyLogs]
+
+/-- logs that are already properly compressed are copied as they are -/
+theorem copyLogs_compressed (env : Env) (ls : List (String × Dset))
+    (h : ∀ kd, kd ∈ ls → kd.2.compressed = true) : copyLogs env {} ls = ls := by
+  induction ls with
+  | nil => rfl
+  | cons kd ls ih =>
+    have h1 := h kd (by simp)
+    have : copyPair env (fun x => ("" : String) ++ x) kd = some kd := by
+      simp [copyPair, h5dsCopy, h1]
+    simp only [copyLogs] at ih ⊢
+    rw [List.filterMap_cons, this, ih (fun kd' hkd' => h kd' (by simp [hkd']))]
+
+theorem copyLogs_all_compressed (env : Env) (ls : List (String × Dset)) :
+    ∀ kd, kd ∈ copyLogs env {} ls → kd.2.compressed = true := by
+  intro kd hkd
+  simp only [copyLogs, List.mem_filterMap, copyPair] at hkd
+  obtain ⟨kd0, _, h⟩ := hkd
+  cases hc : h5dsCopy (env.grid kd0.2) kd0.2 with
+  | none => simp [hc] at h
+  | some d => simp [hc] at h; rw [← h]; exact h5dsCopy_compressed hc
+
+theorem copyLogs_keys (env : Env) (ls : List (String × Dset)) :
+    ∀ kd, kd ∈ copyLogs env {} ls → kd.1 ∈ ls.map (·.1) := by
+  intro kd hkd
+  simp only [copyLogs, List.mem_filterMap, copyPair] at hkd
+  obtain ⟨kd0, hm, h⟩ := hkd
+  cases hc : h5dsCopy (env.grid kd0.2) kd0.2 with
+  | none => simp [hc] at h
+  | some d =>
+    simp [hc] at h; rw [← h]
+    simp only [List.mem_map]
+    exact ⟨kd0, hm, rfl⟩
+
+theorem cmdHistory_compressed (sfx : Nat → String) (cmd : Nat → Dset)
+    (hc : ∀ k, (cmd k).compressed = true) (n : Nat) :
+    ∀ kd, kd ∈ cmdHistory sfx cmd n → kd.2.compressed = true := by
+  intro kd hkd
+  cases n with
+  | zero => simp [cmdHistory] at hkd
+  | succ n =>
+    simp only [cmdHistory, List.mem_append, List.mem_map, List.mem_range, List.mem_singleton] at hkd
+    rcases hkd with ⟨j, _, h⟩ | h
+    · rw [← h]; exact hc j
+    · rw [h]; exact hc n
+
+theorem rename_cmdHistory (sfx : Nat → String) (cmd : Nat → Dset) (n : Nat) :
+    renameOldLogs (sfx (n + 1)) (cmdHistory sfx cmd (n + 1)) ++ [("dclab-compress", cmd (n + 1))]
+      = cmdHistory sfx cmd (n + 2) := by
+  simp only [cmdHistory, renameOldLogs_append]
+  rw [renameOldLogs_noop _ ((List.range n).map _) (by
+    intro kd hkd
+    simp only [List.mem_map, List.mem_range] at hkd
+    obtain ⟨j, _, h⟩ := hkd
+    rw [← h]
+    exact renamed_not_cmd "dclab-compress" _ (by decide))]
+  simp [renameOldLogs, cmdLogNames, List.range_succ]
+
+/-- the logs group after `n + 1` runs on a file without command logs: the user logs (as the first
+    copy stores them) followed by the complete command-log history -/
+theorem compressGen_logs (env : Env) (hook : Attrs → Attrs) (sfx : Nat → String) (cmd : Nat → Dset)
+    (x : File) (hc : ∀ k, (cmd k).compressed = true)
+    (hu : ∀ kd, kd ∈ x.logs.getD [] → cmdLogNames.contains kd.1 = false) (n : Nat) :
+    (compressGen env hook sfx cmd (n + 1) x).logs
+      = some (copyLogs env {} (x.logs.getD []) ++ cmdHistory sfx cmd (n + 1)) := by
+  have hu' : ∀ kd, kd ∈ copyLogs env {} (x.logs.getD []) → cmdLogNames.contains kd.1 = false := by
+    intro kd hkd
+    have := copyLogs_keys env _ kd hkd
+    simp only [List.mem_map] at this
+    obtain ⟨kd0, h0, he⟩ := this
+    rw [← he]; exact hu kd0 h0
+  have hlogs : ∀ (sf : String) (nl : List (String × Dset)) (y : File),
+      (compress env hook sf nl y).logs
+        = some (renameOldLogs sf (copyLogs env {} (y.logs.getD [])) ++ nl) := by
+    intro sf nl y
+    simp only [compress, rtdcCopy, if_true]
+    cases y.logs <;> simp [copyLogs]
+  induction n with
+  | zero =>
+    simp only [compressGen, hlogs, cmdHistory, List.range_zero, List.map_nil, List.nil_append]
+    rw [renameOldLogs_noop _ _ hu']
+  | succ n ih =>
+    rw [compressGen, hlogs, ih, Option.getD_some, copyLogs_append,
+      copyLogs_compressed env (copyLogs env {} (x.logs.getD [])) (copyLogs_all_compressed env _),
+      copyLogs_compressed env _ (cmdHistory_compressed sfx cmd hc (n + 1)),
+      renameOldLogs_append, renameOldLogs_noop _ _ hu', List.append_assoc, rename_cmdHistory]
+
+theorem cmdHistory_names_nodup (sfx : Nat → String) (cmd : Nat → Dset) (n : Nat)
+    (hd : ∀ i j, i < n → j < n → sfx (i + 1) = sfx (j + 1) → i = j) :
+    ((cmdHistory sfx cmd (n + 1)).map (·.1)).Nodup := by
+  simp only [cmdHistory, List.map_append, List.map_map, List.map_cons, List.map_nil]
+  rw [List.nodup_append]
+  refine ⟨?_, by simp, ?_⟩
+  · show List.Pairwise (· ≠ ·) _
+    rw [List.pairwise_map]
+    refine List.Pairwise.imp_of_mem ?_ (List.nodup_range (n := n))
+    intro i j hi hj hne h
+    simp only [Function.comp, List.mem_range] at h hi hj
+    exact hne (hd i j hi hj (rename_suffix_injective _ _ _ h))
+  · intro a ha b hb hab
+    simp only [List.mem_map, List.mem_range, Function.comp] at ha
+    obtain ⟨j, _, hj⟩ := ha
+    simp only [List.mem_singleton] at hb
+    subst hab
+    have := renamed_not_cmd "dclab-compress" (sfx (j + 1)) (by decide)
+    rw [hj, hb] at this
+    simp [cmdLogNames] at this
+
+/-! ## closure: the copy has no unknown feature -/
+theorem copyEntry_known {env : Env} {it : List String} {f x : Feat}
+    (h : copyEntry env it f = some x) : env.known x.name = true := by
+  simp only [copyEntry] at h
+  split at h
+  · rename_i hs
+    simp only [selected, Bool.and_eq_true] at hs
+    cases hn : copyNode env f.node with
+    | none => simp [hn] at h
+    | some n => simp [hn] at h; rw [← h]; exact hs.1.2
+  · cases h
+
+theorem copyDataEntry_known {env : Env} {it : List String} {src : File} {f x : Feat}
+    (h : copyDataEntry env it src f = some x) : env.known x.name = true := by
+  simp only [copyDataEntry] at h
+  split at h
+  · rename_i hs
+    simp only [Bool.and_eq_true] at hs
+    cases hn : copyNode env f.node with
+    | none => simp [hn] at h
+    | some n => simp [hn] at h; rw [← h]; exact hs.1.2
+  · cases h
+
+/-- the copy never contains a feature unknown to dclab — for every source and all options -/
+theorem noUnknown_rtdcCopy (env : Env) (o : Opts) (src : File) :
+    NoUnknownFeature env (rtdcCopy env o src) := by
+  intro x hx
+  simp only [rtdcCopy, List.mem_append] at hx
+  rcases hx with hx | hx
+  · simp only [copyEvents, List.mem_filterMap] at hx
+    obtain ⟨f, _, hf⟩ := hx
+    exact copyEntry_known hf
+  · unfold copyBasinEvents at hx
+    split at hx
+    · simp only at hx
+      split at hx
+      · simp at hx
+      · simp only [Option.getD_some, List.mem_filterMap] at hx
+        obtain ⟨f, _, hf⟩ := hx
+        exact copyDataEntry_known hf
+    · simp at hx
+
+theorem noUnknown_compress (env : Env) (hook : Attrs → Attrs) (sfx : String)
+    (nl : List (String × Dset)) (src : File) :
+    NoUnknownFeature env (compress env hook sfx nl src) := by
+  intro x hx
+  exact noUnknown_rtdcCopy env {} src x (by simpa [compress] using hx)
+
 end DclabModel.Copy
